@@ -49,7 +49,7 @@ theorem connGo_conn (conn : Nat → Nat → Int) (hconn : I16Conn conn) (n : Vit
     rw [addI32_some _ _ (by omega) (by omega)]
     simp only []
     split
-    · obtain ⟨st', h1, h2, h3⟩ := ih (i + 1) (l.total + conn l.node.r n.l + n.c, asU16 n.b, asU16 i) hrest
+    · obtain ⟨st', h1, h2, h3⟩ := ih (i + 1) (l.total + conn l.node.r n.l + n.c, asU16 n.b, asU32 i) hrest
         (Or.inr ⟨by simp only []; omega, by simp only []; omega⟩)
       refine ⟨st', h1, h2, fun _ => h3 (Or.inr ?_)⟩
       simp only []; rw [i32max_eq]; omega
@@ -62,7 +62,7 @@ theorem connectNode_conn (conn : Nat → Nat → Int) (hconn : I16Conn conn) (n 
     (hc : -D ≤ n.c ∧ n.c ≤ D) (hB : B + 32768 + D ≤ 2147483646) (row : List Entry) (hrow : RowConn B row)
     (hne : row ≠ []) :
     ∃ r, connectNode addI32 I32_MAX conn row n = some r ∧ -(B + 32768 + D) ≤ r.1 ∧ r.1 ≤ B + 32768 + D := by
-  obtain ⟨st', h1, _, h3⟩ := connGo_conn conn hconn n B D hc hB row 0 (I32_MAX, 65535, 65535) hrow (Or.inl rfl)
+  obtain ⟨st', h1, _, h3⟩ := connGo_conn conn hconn n B D hc hB row 0 (I32_MAX, 65535, idxNone) hrow (Or.inl rfl)
   exact ⟨st', h1, h3 (Or.inl hne)⟩
 
 /-! ## connected lattices -/
